@@ -267,7 +267,47 @@ def usable_after_additions(ctx, dist):
             rep.violation("usable:recipient-unusable:%s:%s" % (fam, kind), "recipient %d of an object made with a key set (%s, %s) cannot decrypt it any more: %s" % (i, fam, kind, o[:40]),
                           {"case": c[:3000], "produced_by": r[:1500]})
     dist["end-to-end: key sets x template forms, every recipient decrypts"] = len(dec)
-    return len(req) + len(dec)
+    nsig = jws_order(ctx, dist)
+    return len(req) + len(dec) + nsig
+
+
+def jws_order(ctx, dist):
+    """signatures made by ONE call with a key set (the library signs through a multiplexer) appear in the order of the keys,
+    after whatever was there before; every signer still verifies (implementation only)"""
+    import jwsgen as G
+    rep = ctx["rep"]
+    bdir = ctx["bdir"]
+    rnd = random.Random(ctx["seed"] + 17)
+    keys = G.standard_keys(bdir)
+    J = G.dumps
+    pool = [("HS256", G.oct_key(rnd, 32)), ("HS384", G.oct_key(rnd, 48)), ("HS512", G.oct_key(rnd, 64))]
+    if keys.get("P-256"):
+        pool.append(("ES256", keys["P-256"]))
+    first = G.harness(bdir, ["jwssig\t%s\t%s\t%s" % (J({"payload": G.b64(b"order")}), J({"protected": {"alg": "HS256"}, "header": {"n": "first"}}), J(pool[0][1]))])[0]
+    starts = [("empty", J({"payload": G.b64(b"order")}), [])]
+    if first.startswith("{"):
+        starts.append(("flattened", first, ["first"]))
+    req, meta = [], []
+    for sname, start, before in starts:
+        for _ in range(6):
+            sel = rnd.sample(pool, rnd.choice([2, 3, len(pool)]))
+            for form in ("array", "jwkset"):
+                ks = [k for _, k in sel]
+                tm = [{"protected": {"alg": a}, "header": {"n": "k%d" % i}} for i, (a, _) in enumerate(sel)]
+                req.append("jwssig\t%s\t%s\t%s" % (start, J(tm), J(ks if form == "array" else {"keys": ks})))
+                meta.append((sname, before + ["k%d" % i for i in range(len(sel))], [a for a, _ in sel]))
+    n = 0
+    for r, o, (sname, want, algs) in zip(req, G.harness(bdir, req), meta):
+        n += 1
+        if o == "ERR" or o.startswith("CRASH"):
+            rep.violation("jws-order:sign-failed:" + sname, "jose_jws_sig with a key set (%s) failed: %s" % (",".join(algs), o[:80]), {"case": r[:3000]})
+            continue
+        got = [(e.get("header") or {}).get("n") for e in json.loads(o).get("signatures") or []]
+        if got != want:
+            rep.violation("jws-order:%s" % sname, "one call with the keys %s on a %s object: the signatures appear as %s, the order of addition is %s" % (",".join(algs), sname, got, want),
+                          {"case": r[:3000], "implementation": o[:1200]})
+    dist["JWS: one call with a key set, order of the signatures"] = n
+    return n
 
 
 def cli_additions(ctx, dist):
